@@ -38,11 +38,10 @@ def run(repo, rep, tier):
     rep.check('thresholds', 'the 2048-bit warning text names 2048 bits', '2048-bit' in consts['HostKeyTest.TWO2K_MODULUS_WARNING'], repo.cls('hostkeytest', 'HostKeyTest'), 'TWO2K warning text changed')
 
     # ---- rule 1: threshold partition ------------------------------------------------------------------------------------
-    blocks = [n for n in walk_no_nested(pt) if isinstance(n, ast.If) and unparse(n.test) == 'hostkey_modulus_size > 0 or ca_modulus_size > 0']
-    if len(blocks) != 1:
-        raise AnalysisError('rating block `if hostkey_modulus_size > 0 or ca_modulus_size > 0` not found in perform_test')
-    blk = blocks[0]
-    tracked = {'hostkey_min_good', 'cakey_min_good', 'hostkey_min_warn', 'cakey_min_warn', 'hostkey_warn_str', 'cakey_warn_str', 'key_fail_comments', 'key_warn_comments'}
+    # The whole probe (HostKeyTest.perform_test) is interpreted along its no-exception path (props/_hostkey_rating.probe): the server offers one key type,
+    # the key-exchange object reports (size, CA type, CA size), and the notes that land in the rating table are compared with the documented thresholds.
+    # Helper methods, threshold tables, merged family loops etc. are all interpreted; nothing depends on how the rating code is laid out.
+    blk = pt
     rsa_sizes = [1, 1023, 1024, 2047, 2048, 2049, 3071, 3072, 3073, 4096, 16384]
     ecc_sizes = [1, 223, 224, 225, 255, 256, 257, 448, 521]
     if tier == 'quick':
@@ -54,13 +53,22 @@ def run(repo, rep, tier):
     ncases = 0
     bad = []
     severity = {}
+
+    def rows(table, t):
+        r = table.get(t, [])
+        return (list(r[1]) if len(r) > 1 else []), (list(r[2]) if len(r) > 2 else [])
     for (hkt, cert, hkind), (cat, ckind) in itertools.product(host_kinds, ca_kinds):
         if not cert and ckind is not None:
             continue
         hsizes = rsa_sizes if hkind == 'rsa' else ecc_sizes
         csizes = [0] if ckind is None else (rsa_sizes if ckind == 'rsa' else ecc_sizes)
         for hs, cs in itertools.product(hsizes, csizes):
-            all_fails, warns = _hostkey_rating.rate_key(blk, consts, hkt, cert, hs, cat, cs, on_eval=rep.evals, repo=repo)
+            ev_ = _hostkey_rating.probe(repo, consts, [(hkt, cert, hs, cat, cs)])
+            rep.evals()
+            if ev_['crash']:
+                bad.append(((hkt, hs, cat, cs), 'the probe raises: ' + ev_['crash'], [], None, None))
+                continue
+            all_fails, warns = rows(ev_['table'], hkt)
             env = {'key_fail_comments': all_fails, 'key_warn_comments': warns}
             ncases += 1
             fails = [c for c in all_fails if 'backdoored' not in str(c)]
@@ -108,50 +116,44 @@ def run(repo, rep, tier):
                 mono_bad.append((key, (s1, v1), (s2, v2)))
     rep.check('thresholds', 'the rating never gets worse as a key grows', not mono_bad, blk, 'severity increases with size: %s' % (mono_bad[0],) if mono_bad else '')
     rep.extra['abstract_cases'] = ncases
-    # thresholds are used by strict comparisons with the size on the left
-    cmps = [n for n in ast.walk(blk) if isinstance(n, ast.Compare) and any('modulus_size' in unparse(x) for x in [n.left] + n.comparators) and any('min_' in unparse(x) for x in [n.left] + n.comparators)]
-    rep.floor('thresholds', 'threshold comparisons', len(cmps), 6)
-    for c in cmps:
-        rep.check('thresholds', 'threshold comparison is strict `<`: %s' % unparse(c), all(isinstance(o, ast.Lt) for o in c.ops), c, 'threshold comparison %s is not a strict less-than' % unparse(c))
-    # the block runs only after the reply was parsed and recorded
-    pcs = [(unparse(t), p) for t, p, k in path_condition(blk) if k == 'if']
-    rep.check('thresholds', 'rating happens only for key types the server advertises', ('host_key_type in server_kex.key_algorithms', True) in pcs, blk, 'rating block guards: %s' % pcs)
+    # nothing is probed, recorded or rated for a key type the server does not advertise
+    ev_ = _hostkey_rating.probe(repo, consts, [('ssh-rsa', False, 1024, '', 0)], offered=[])
+    untouched = all(len(r) == 1 for r in ev_['table'].values())
+    rep.check('thresholds', 'rating happens only for key types the server advertises', untouched and not ev_['records'] and not ev_['connects'], blk,
+              'a key type the server does not offer is probed / rated: connections %d, records %s, table %s' % (ev_['connects'], ev_['records'], {k: v for k, v in ev_['table'].items() if len(v) > 1}))
 
-    # ---- rule 2: where the rating lands -----------------------------------------------------------------------------------
-    ext = [n for n in walk_no_nested(pt) if isinstance(n, ast.Call) and isinstance(n.func, ast.Attribute) and n.func.attr == 'extend' and unparse(n.func.value).startswith("db['key']")]
-    got = sorted((unparse(n.func.value), unparse(n.args[0])) for n in ext)
-    want = sorted([("db['key'][rsa_type][1]", 'key_fail_comments'), ("db['key'][rsa_type][2]", 'key_warn_comments'), ("db['key'][host_key_type][1]", 'key_fail_comments'), ("db['key'][host_key_type][2]", 'key_warn_comments')])
-    rep.check('landing', 'fail notes land in row 1 and warn notes in row 2 of the probed key type', got == want, ext[0] if ext else pt, 'table edits: %s' % got, sample={'rule': 'landing', 'edits': got})
-    for n in ext:
-        tgt = unparse(n.func.value)
-        pc = path_condition(n)
-        fam = any(unparse(t) == 'host_key_type in HostKeyTest.RSA_FAMILY' and p for t, p, k in pc)
-        loops = [unparse(t) for t, p, k in pc if k == 'for']
-        if 'rsa_type' in tgt:
-            rep.check('landing', 'RSA-family result is written to every family member: %s' % tgt, fam and 'HostKeyTest.RSA_FAMILY' in loops, n, 'RSA family propagation changed for %s' % tgt)
-        else:
-            rep.check('landing', 'non-RSA result is written to the probed type only: %s' % tgt, any(unparse(t) == 'host_key_type in HostKeyTest.RSA_FAMILY' and not p for t, p, k in pc), n, 'non-family edit is not in the else branch')
-    grow = [n for n in walk_no_nested(pt) if isinstance(n, ast.While) and 'len(db[' in unparse(n.test)]
-    rep.check('landing', 'rows 1 and 2 are created before they are extended (row-extension idiom < 3)', len(grow) == 2 and all(unparse(g.test).endswith('< 3') for g in grow), grow[0] if grow else pt, 'row extension loops changed')
-    marks = sorted(unparse(n.args[0]) for n in walk_no_nested(pt) if isinstance(n, ast.Call) and unparse(n.func) == 'parsed_host_key_types.add')
-    rep.check('landing', 'probed types are marked parsed (the whole family for RSA)', marks == ['host_key_type', 'rsa_type'], pt, 'parsed-type bookkeeping: %s' % marks)
-    skip = [n for n in walk_no_nested(pt) if isinstance(n, ast.If) and unparse(n.test) == 'host_key_type in parsed_host_key_types' and isinstance(n.body[-1], ast.Continue)]
-    rep.check('landing', 'already parsed types are skipped', len(skip) == 1, pt, 'skip of parsed types changed')
-    resets = [n for n in walk_no_nested(pt) if isinstance(n, ast.Assign) and unparse(n.targets[0]) in ('key_fail_comments', 'key_warn_comments') and unparse(n.value) == '[]']
-    # both lists are re-created unconditionally in the body of the loop over key types (whatever it iterates), before any use in that iteration
-    type_loops = [n for n in walk_no_nested(pt) if isinstance(n, ast.For) and unparse(n.target) == 'host_key_type']
-    ok = len(resets) == 2 and len(type_loops) == 1
-    if ok:
-        body = type_loops[0].body
-        for r in resets:
-            if r not in body:
-                ok = False
-                continue
-            nm = unparse(r.targets[0])
-            for earlier in body[:body.index(r)]:
-                if any(isinstance(x, ast.Name) and x.id == nm for x in ast.walk(earlier)):
-                    ok = False
-    rep.check('landing', 'comment lists are fresh for every key type', ok, resets[0] if resets else pt, 'comment lists are not reset per type: notes of one key type would be attached to the next')
+    # ---- rule 2: where the rating lands (same model) -------------------------------------------------------------------------
+    fam = list(consts['HostKeyTest.RSA_FAMILY'])
+    ev_ = _hostkey_rating.probe(repo, consts, [('ssh-ed25519', False, 200, '', 0)])
+    f_, w_ = rows(ev_['table'], 'ssh-ed25519')
+    others = {k: v for k, v in ev_['table'].items() if k != 'ssh-ed25519' and len(v) > 1 and (v[1] or (len(v) > 2 and v[2]))}
+    rep.check('landing', 'fail notes land in row 1 of the probed key type, and only there', len(f_) == 1 and not w_ and not others, pt, 'table edits for a 200-bit ssh-ed25519 key: own rows %s / %s, other entries %s' % (f_, w_, others), sample={'rule': 'landing', 'edits': {'ssh-ed25519': [f_, w_]}})
+    ev_ = _hostkey_rating.probe(repo, consts, [('ssh-ed25519', False, 224, '', 0)])
+    f_, w_ = rows(ev_['table'], 'ssh-ed25519')
+    rep.check('landing', 'warn notes land in row 2 of the probed key type', not f_ and len(w_) == 1, pt, 'table edits for a 224-bit ssh-ed25519 key: rows %s / %s' % (f_, w_))
+    for probe_type in fam[:1] + fam[-1:]:
+        ev_ = _hostkey_rating.probe(repo, consts, [(probe_type, False, 1024, '', 0)])
+        got = {t: rows(ev_['table'], t) for t in fam}
+        rep.check('landing', 'RSA-family result (probed as %s) is written to every family member, once' % probe_type, all(len(got[t][0]) == 1 and not got[t][1] for t in fam) and len({repr(v) for v in got.values()}) == 1, pt,
+                  'RSA family propagation changed: probing %s with a 1024-bit key leaves %s' % (probe_type, got), stmt='family propagation from %s' % probe_type)
+        rec_types = sorted({r[0] for r in ev_['records']})
+        rep.check('landing', 'the measured RSA key is recorded for every family member (probed as %s)' % probe_type, rec_types == sorted(fam), pt, 'host key records after probing %s: %s' % (probe_type, rec_types), stmt='family records from %s' % probe_type)
+    ev_ = _hostkey_rating.probe(repo, consts, [(fam[0], False, 1024, '', 0), (fam[-1], False, 1024, '', 0)])
+    got = {t: rows(ev_['table'], t) for t in fam}
+    rep.check('landing', 'already parsed types are skipped (the family is probed once)', ev_['connects'] == 1 and ev_['inits'] == 1 and all(len(got[t][0]) == 1 for t in fam), pt,
+              'two offered RSA-family types cause %d connection(s) / %d key exchange(s) and leave %s' % (ev_['connects'], ev_['inits'], got))
+    # what is written for a key type does not depend on the type probed before it (fresh comment lists, fresh measurements)
+    for first, second in ((('ssh-rsa-cert-v01@openssh.com', True, 1024, 'ecdsa-sha2-nistp256', 200), ('ssh-ed25519', False, 256, '', 0)), (('ssh-dss', False, 1024, '', 0), ('ecdsa-sha2-nistp256', False, 224, '', 0)),
+                          (('ssh-ed25519', False, 200, '', 0), ('ssh-rsa', False, 4096, '', 0))):
+        both = _hostkey_rating.probe(repo, consts, [first, second])
+        alone = _hostkey_rating.probe(repo, consts, [second])
+        rep.evals(2)
+        rep.check('landing', 'comment lists are fresh for every key type (%s after %s)' % (second[0], first[0]), rows(both['table'], second[0]) == rows(alone['table'], second[0]), pt,
+                  'comment lists are not reset per type: probed after %s, %s is rated %s; probed alone %s -- notes of one key type are attached to the next' % (first[0], second[0], rows(both['table'], second[0]), rows(alone['table'], second[0])),
+                  stmt='fresh lists: %s after %s' % (second[0], first[0]))
+        r2 = [r for r in both['records'] if r[0] == second[0]]
+        rep.check('record', 'the record of %s carries its own measurement (probed after %s)' % (second[0], first[0]), bool(r2) and all(r == (second[0], second[2], second[3], second[4]) for r in r2), pt,
+                  'set_host_key for %s receives %s, measured was %s: a key type probed later in the loop inherits a value measured for an earlier one' % (second[0], r2, (second[2], second[3], second[4])), stmt='record of %s after %s' % (second[0], first[0]))
 
     # ---- rule 3: record-field agreement -------------------------------------------------------------------------------------
     sh = repo.func('ssh2_kex', 'SSH2_Kex.set_host_key')
@@ -178,15 +180,6 @@ def run(repo, rep, tier):
                 if n.left.value.endswith(('_size', '_type', '_bytes')):
                     rep.check('record', '%s.%s tests record field %r that set_host_key writes' % (m, q, n.left.value), n.left.value in KEYS, n, '%s tests unknown record field %r' % (q, n.left.value))
     rep.floor('record', 'record field reads', nread, 12)
-    calls = [n for n in walk_no_nested(pt) if isinstance(n, ast.Call) and unparse(n.func) == 'server_kex.set_host_key']
-    rep.floor('record', 'set_host_key call sites', len(calls), 2)
-    for c in calls:
-        b = bind_args(c, sh, skip_self=True)
-        got = {k: unparse(v) for k, v in b.items()}
-        rep.check('record', 'set_host_key receives (blob, host key size, CA type, CA size) in parameter order', got.get('raw_hostkey_bytes') == 'raw_hostkey_bytes' and got.get('hostkey_size') == 'hostkey_modulus_size' and got.get('ca_key_type') == 'ca_key_type' and got.get('ca_key_size') == 'ca_modulus_size', c, 'set_host_key arguments: %s' % got)
-    srcs = {unparse(n.targets[0]): unparse(n.value) for n in walk_no_nested(pt) if isinstance(n, ast.Assign) and unparse(n.targets[0]) in ('hostkey_modulus_size', 'ca_key_type', 'ca_modulus_size', 'kex_reply') and isinstance(n.value, ast.Call)}
-    want = {'hostkey_modulus_size': 'kex_group.get_hostkey_size()', 'ca_key_type': 'kex_group.get_ca_type()', 'ca_modulus_size': 'kex_group.get_ca_size()', 'kex_reply': 'kex_group.recv_reply(s)'}
-    rep.check('record', 'recorded values come from the key-exchange object that just parsed the reply', srcs == want, pt, 'value sources: %s' % srcs)
     # every recorded value is re-read from the key-exchange object on EVERY path from the reply to the record (no value may
     # survive from the previous key type of the loop)
     from sa.cfg import CFG, describe_path
